@@ -107,9 +107,10 @@ func (h *recHandler) snapshot() []recEvent {
 // fake peer
 
 type peerMsg struct {
-	msg   wire.Message
-	block *verifkit.TBlock // set for block messages
-	tag   string
+	msg        wire.Message
+	block      *verifkit.TBlock // set for block messages
+	tag        string
+	bestAtSend *verifkit.TBlock // the peer's best tip when it sent this message
 }
 
 type fakePeer struct {
@@ -143,6 +144,7 @@ func (p *fakePeer) newConnection() {
 	p.sendHeaders = false
 	p.toNode = nil
 	p.knowsNodeHas = nil
+	p.silentBlocks = map[bitcoin.Hash32]bool{} // a block is only withheld on the connection it was asked on
 	p.blockRequests = append(p.blockRequests, nil)
 }
 
@@ -254,7 +256,7 @@ func (p *fakePeer) setBest(b *verifkit.TBlock) {
 			}
 		}
 		p.knowsNodeHas = b
-		p.toNode = append(p.toNode, peerMsg{msg: msg, tag: "headers-announce"})
+		p.toNode = append(p.toNode, peerMsg{msg: msg, tag: "headers-announce", bestAtSend: b})
 		return
 	}
 	inv := wire.NewMsgInv()
@@ -361,12 +363,25 @@ func (sn *stepNode) connect() {
 	sn.drain()
 }
 
+// stamp records, for messages just enqueued by the peer, which tip was its best at that time.
+func (p *fakePeer) stamp() {
+	for i := range p.toNode {
+		if p.toNode[i].bestAtSend == nil {
+			p.toNode[i].bestAtSend = p.best
+		}
+	}
+}
+
 // drain hands everything the node queued for sending to the peer.
 func (sn *stepNode) drain() {
+	defer sn.peer.stamp()
 	for {
 		select {
 		case m := <-sn.node.outgoing.Channel:
-			sn.progress++
+			if _, pong := m.(*wire.MsgPong); !pong {
+				sn.progress++
+			}
+			sn.trace("node -> peer: %s", sn.describe(m))
 			sn.peer.handle(m)
 		default:
 			return
@@ -379,15 +394,28 @@ func (sn *stepNode) deliver(m wire.Message) {
 	sn.step++
 	_ = sn.node.check(sn.ctx)
 	sn.drain()
+	sn.trace("peer -> node: %s", sn.describe(m))
 	_ = sn.node.handleMessage(sn.ctx, m)
 	sn.drain()
-	if hm, ok := m.(*wire.MsgHeaders); ok {
-		for _, h := range hm.Headers {
-			if b, ok := sn.peer.tree.ByHash[*h.BlockHash()]; ok && sn.peer.best.OnPath(b) {
-				if sn.peer.deliveredTip == nil || b.Height > sn.peer.deliveredTip.Height || !sn.peer.best.OnPath(sn.peer.deliveredTip) {
-					sn.peer.deliveredTip = b
-				}
-			}
+}
+
+// noteDelivered updates "the best-chain tip the peer has announced so far" from a headers message
+// the node has finished handling: the highest header of the message on the chain that was the
+// peer's best when it sent the message replaces the previous one if it is higher or on another
+// branch.
+func (sn *stepNode) noteDelivered(pm peerMsg) {
+	hm, ok := pm.msg.(*wire.MsgHeaders)
+	if !ok || pm.bestAtSend == nil {
+		return
+	}
+	for _, h := range hm.Headers {
+		b, ok := sn.peer.tree.ByHash[*h.BlockHash()]
+		if !ok || !pm.bestAtSend.OnPath(b) {
+			continue
+		}
+		d := sn.peer.deliveredTip
+		if d == nil || b.Height > d.Height || !pm.bestAtSend.OnPath(d) {
+			sn.peer.deliveredTip = b
 		}
 	}
 }
@@ -404,6 +432,7 @@ func (sn *stepNode) deliverNext(i int) bool {
 	sn.peer.toNode = append(sn.peer.toNode[:i], sn.peer.toNode[i+1:]...)
 	sn.progress++
 	sn.deliver(pm.msg)
+	sn.noteDelivered(pm)
 	return true
 }
 
@@ -423,7 +452,10 @@ func (sn *stepNode) blockStep() bool {
 		return false
 	}
 	sn.progress++
-	if err := sn.node.ProcessBlock(sn.ctx, block); err != nil {
+	bh := block.GetHeader()
+	err0 := sn.node.ProcessBlock(sn.ctx, block)
+	sn.trace("blockstep %s -> %v", sn.describe(&wire.MsgBlock{Header: bh}), err0)
+	if err := err0; err != nil {
 		c := errors.Cause(err)
 		if c != ErrBlockNotNextBlock && c != ErrBlockNotAdded {
 			sn.blockThreadDead = err.Error()
